@@ -40,6 +40,11 @@ def gen_scenario(prop: str, idx: int) -> dict:
     """Deterministic scenario idx of the fixed grid for a property focus."""
     rng = random.Random(core.derive(SCEN_SALT, prop, idx))
     focus = prop
+    # realistic nanosecond clock: the ingestion period does not start or end
+    # on a round number (window borders are then not exactly representable
+    # as floats)
+    T0_ = T0 + rng.randint(1, 999)
+    HORIZON_ = HORIZON + rng.randint(1, 999)
     buf = rng.choice([0, 0, 1, 5, 10])
     if focus == "C10":
         buf = 0
@@ -75,10 +80,10 @@ def gen_scenario(prop: str, idx: int) -> dict:
     traces = []
     anchor_name = names[0]
     traces.append(dict(id="anchor", name=anchor_name, kind="anchor", spans=[
-        dict(id="anchor-r", trace="anchor", type="R", parent=None, st=T0,
-             en=T0 + HORIZON, name=anchor_name, app="app"),
+        dict(id="anchor-r", trace="anchor", type="R", parent=None, st=T0_,
+             en=T0_ + HORIZON_, name=anchor_name, app="app"),
         dict(id="anchor-c", trace="anchor", type="X", parent="anchor-r",
-             st=T0 + HORIZON // 2, en=T0 + HORIZON // 2 + 1000,
+             st=T0_ + HORIZON_ // 2, en=T0_ + HORIZON_ // 2 + 1000,
              name=anchor_name, app="app")]))
     kinds = {
         "C09": ["ok"] * 6 + ["outside", "dangling", "straddle", "edge"],
@@ -98,24 +103,24 @@ def gen_scenario(prop: str, idx: int) -> dict:
         span_len = 1000
         if kind == "outside":
             if rng.random() < 0.5:
-                base = T0 + rng.randint(0, max(0, buf * MIN - 5000))
+                base = T0_ + rng.randint(0, max(0, buf * MIN - 5000))
             else:
-                base = T0 + HORIZON - buf * MIN + 1 + rng.randint(
+                base = T0_ + HORIZON_ - buf * MIN + 1 + rng.randint(
                     0, max(0, buf * MIN - 5000))
             span_len = 1000
         elif kind == "straddle":
             if rng.random() < 0.5:
-                base = T0 + max(0, buf * MIN - 500)
+                base = T0_ + max(0, buf * MIN - 500)
             else:
-                base = T0 + HORIZON - buf * MIN - 500
+                base = T0_ + HORIZON_ - buf * MIN - 500
             span_len = 2000
         elif kind == "edge":
             # exactly one timestamp of the trace lies exactly on a window
             # edge (the window is closed: docs/user/Config.md)
-            base = T0  # fixed up below
+            base = T0_  # fixed up below
         else:
-            base = T0 + buf * MIN + rng.randint(
-                1, HORIZON - 2 * buf * MIN - 10**6)
+            base = T0_ + buf * MIN + rng.randint(
+                1, HORIZON_ - 2 * buf * MIN - 10**6)
         sp = []
         cnt = [0]
 
@@ -136,12 +141,12 @@ def gen_scenario(prop: str, idx: int) -> dict:
 
         emit(shape, None, base)
         if kind == "edge":
-            lo_w, hi_w = T0 + buf * MIN, T0 + HORIZON - buf * MIN
+            lo_w, hi_w = T0_ + buf * MIN, T0_ + HORIZON_ - buf * MIN
             if rng.random() < 0.5:
                 # everything ends at the lower edge at the latest
                 for d in sp:
                     d["en"] = lo_w - (0 if d is sp[0] else 1 + len(sp))
-                    d["st"] = max(T0, d["en"] - 10)
+                    d["st"] = max(T0_, d["en"] - 10)
                 if buf == 0:
                     sp[0]["st"] = sp[0]["en"] = lo_w
                     for d in sp[1:]:
@@ -149,7 +154,7 @@ def gen_scenario(prop: str, idx: int) -> dict:
             else:
                 for d in sp:
                     d["st"] = hi_w + (0 if d is sp[0] else 1)
-                    d["en"] = min(T0 + HORIZON, d["st"] + 10)
+                    d["en"] = min(T0_ + HORIZON_, d["st"] + 10)
                 if buf == 0:
                     for d in sp:
                         d["st"] = d["en"] = hi_w
@@ -159,7 +164,7 @@ def gen_scenario(prop: str, idx: int) -> dict:
                 d["st"] = min(d["st"], hi)
                 d["en"] = min(d["en"], hi)
             # keep it strictly outside the window
-            lo_w, hi_w = T0 + buf * MIN, T0 + HORIZON - buf * MIN
+            lo_w, hi_w = T0_ + buf * MIN, T0_ + HORIZON_ - buf * MIN
             if any(lo_w <= d["st"] <= hi_w or lo_w <= d["en"] <= hi_w
                    for d in sp):
                 kind = "straddle"
@@ -409,6 +414,27 @@ def _proc(arg: dict) -> dict:
     res["after_ingest"] = snapshot()
     if not arg.get("pipeline"):
         return res
+    # sequencing of the store as ingested (before cleaning): traces that
+    # cannot be materialised are skipped, every other one is sequenced
+    raw = []
+    gen = h.stream_data()
+    try:
+        for name, jobs in gen:
+            for job in sequence_otel_job_id_streams(jobs):
+                evs = list(job)
+                raw.append([name, evs[0]["jobId"] if evs else None,
+                            sorted(e["eventId"] for e in evs)])
+        res["pv_raw"] = sorted(raw)
+    except Exception as e:  # observed, not judged (see evaluate)
+        res["pv_raw_exc"] = type(e).__name__
+    finally:
+        # an abandoned stream would keep its cursor (and a table lock) open
+        import gc
+
+        name = jobs = None
+        gen.close()
+        gc.collect()
+        h.session.close()
     h.remove_inconsistent_jobs()
     h.remove_jobs_outside_of_time_window()
     h.update_job_names_by_root_span()
@@ -606,6 +632,30 @@ def evaluate(scen: dict, outs: list[dict]) -> dict:
     fn = set(scen.get("filter_names", []))
     if fn:
         check_stream("names", last["stream_names"], lambda n, t: n in fn)
+    # sequencing before cleaning: every complete, consistently named trace
+    # is sequenced exactly once with all its spans, whatever else is stored
+    # (an uncleaned store with inconsistent workflow names is outside what
+    # the sequencer supports - it raises on the pinned tree - so an exception
+    # here is not judged)
+    info["pv_raw_exc"] = last.get("pv_raw_exc")
+    if "pv_raw" in last:
+        got_raw: dict = {}
+        for name, jid, ids in last["pv_raw"]:
+            got_raw.setdefault(jid, []).append([name, ids])
+        for tid, sp in m.by_trace().items():
+            names = {s["name"] for s in sp}
+            broken = any(s["parent"] and s["parent"] not in m.first
+                         for s in sp)
+            roots = [s for s in sp if not s["parent"]]
+            if broken or len(names) != 1 or len(roots) != 1:
+                continue
+            exp = [[sp[0]["name"], sorted(s["id"] for s in sp)]]
+            if got_raw.get(tid) != exp:
+                errs["C12"].append(
+                    ["trace-not-sequenced",
+                     f"uncleaned store: {tid} expected once with "
+                     f"{len(sp)} spans, got {got_raw.get(tid)}"[:300]])
+                break
     info["pv"] = last["pv"]
     return {"errs": errs, "info": info}
 
